@@ -187,17 +187,19 @@ class NaiveForecaster(_OptionalForecastingHorizonMixin, _BaseWindowForecaster):
             else:
                 # if the window length is not a multiple of sp, we pad the
                 # window with nan values for easy computation of the mean
-                remainder = self.window_length_ % self.sp_
+                # the padding goes to the start of the window, so that the
+                # columns (seasons) stay aligned with the end of the window,
+                # i.e. the cutoff; the actual window may be shorter than
+                # `window_length_` for in-sample predictions near the start
+                remainder = len(last_window) % self.sp_
                 if remainder > 0:
                     pad_width = self.sp_ - remainder
                 else:
                     pad_width = 0
-                last_window = np.hstack([last_window, np.full(pad_width, np.nan)])
+                last_window = np.hstack([np.full(pad_width, np.nan), last_window])
 
                 # reshape last window, one column per season
-                last_window = last_window.reshape(
-                    np.int(np.ceil(self.window_length_ / self.sp_)), self.sp_
-                )
+                last_window = last_window.reshape(-1, self.sp_)
 
                 # compute seasonal mean, averaging over rows
                 y_pred = np.nanmean(last_window, axis=0)
